@@ -307,6 +307,6 @@ def make_spec(key):
 
 def run(ctx):
     for role in ("server", "client"):
-        ctx.explore(("c22", role, ctx.tier), time_budget=None if ctx.tier == "quick" else 420)
+        ctx.explore(("c22", role, ctx.tier), time_budget=None if ctx.tier == "quick" else 240)
     # outbound normalisation off (validation stays on): an invalid request list is refused all the same
     ctx.explore(("c22", "server", ctx.tier, "nonorm"), time_budget=None if ctx.tier == "quick" else 200)
